@@ -43,8 +43,12 @@ fn set_nonblocking<T: AsRawFd>(fd: &T, nb: bool) -> io::Result<()> {
 /// this type can be used in coroutine context without blocking the thread
 #[derive(Debug)]
 pub struct CoIo<T: AsRawFd> {
-    inner: T,
+    // `io` must be dropped before `inner`: it removes the fd from the selector, which has
+    // to happen while the fd is still open. Closing first leaves the registration behind
+    // when the socket has been dup'ed (try_clone / split), and the selector then gets
+    // events for an already freed EventData
     io: io_impl::IoData,
+    inner: T,
     #[cfg(feature = "io_timeout")]
     read_timeout: AtomicDuration,
     #[cfg(feature = "io_timeout")]
